@@ -15,7 +15,7 @@ RULE = ('cases: nested lists/dicts (depth <= 3) holding 1-5 float Series / DataF
         'of lengths 0-6 (full shape and every cell observed) for ij/oj/lj/rj x method, a stream of lj/rj joins over >= 3 series whose last/first index repeats another one, and a small malformed stream mixing arrays with Series (ValueError). '
         'Observed: container structure, index, columns, every cell, is-identity of pass-through members; compared in Coq '
         'with the model M_align evaluated by vm_compute; the oracle recomputes index / cells / columns from the property text '
-        'with Python sets and linear scans. Every stream is further varied in kind: tick length 1 us .. 1 day and origins 1900 / 2020 / 2250, policy / method / column spellings (inner, Outer, pad, backfill, ..), multi-letter and integer column names and dict keys, int-dtype operands, +-inf cells, 120-250-row series, presync via keywords / .oj.ffill attributes / join=<parameter name>, recording functions with signatures (a, *args), (a, b=None, *args, **kw), (*args) receiving 2-4 timeseries, direct df_columns. non-trivial = at least two timeseries with different, overlapping indices (or two '
+        'with Python sets and linear scans. Every stream is further varied in kind: tick length 1 us .. 1 day and origins 1900 / 2020 / 2250, policy / method / column spellings (inner, Outer, pad, backfill, ..), multi-letter and integer column names and dict keys, int-dtype operands, +-inf cells, 120-250-row series, presync via keywords / .oj.ffill attributes / join=<parameter name>, recording functions with signatures (a, *args), (a, b=None, *args, **kw), (*args) receiving 2-4 timeseries, direct df_columns, timezone-aware indices (UTC / Europe/London / US/Eastern / Asia/Tokyo, all members in one zone; the model sees instants) in 25% of the cases, dict keys named index / columns / data / values (dedicated stream + renaming). Every sync / reindex / presync call is made TWICE on the same objects (identical result required), half the sync / reindex cases (all array cases) align the same objects again with the other fill methods (oracle-checked), and a deep snapshot of every operand (cells, index, dtype, name, array contents) must be unchanged afterwards. non-trivial = at least two timeseries with different, overlapping indices (or two '
         'arrays of different lengths); distinct by full input')
 EXPLANATION = ('theorems C03_* (coq/props/C03.v) hold for every nested collection, every index and every policy: common index '
                '(intersection / union / first / last / explicit), values intact, missing = NaN, ffill/bfill = as-of join on '
@@ -37,7 +37,7 @@ METHODS = [None, 'ffill', 'bfill']
 
 DAYUS = 86400 * 10**6
 INF = 10**9                       # +-inf cells are carried as +-INF (values are carried, never computed, in C03)
-NAMES = {'`': 0, 'px_last': 40, 'vol 2': 41, 'Ab': 42, 'key one': 43, 'K2': 44, 'close': 45}
+NAMES = {'`': 0, 'px_last': 40, 'vol 2': 41, 'Ab': 42, 'key one': 43, 'K2': 44, 'close': 45, 'index': 46, 'columns': 47, 'data': 48, 'values': 49}
 import numbers
 def known_name(c):
     return (isinstance(c, numbers.Integral) and not isinstance(c, bool) and 0 <= c < 50) or (isinstance(c, str) and (c in NAMES or (len(c) == 1 and 'a' <= c <= 'z')))
@@ -47,11 +47,12 @@ def colcode(c):
         return 100 + int(c)
     return NAMES[c] if c in NAMES else ord(c) - 96
 keycode = colcode
-_AX = {'d0': D0, 'unit': DAYUS}
+_AX = {'d0': D0, 'unit': DAYUS, 'tz': None}
 def set_axis(case):
     """the model's time axis is an integer tick; a case may choose the tick length (down to 1 microsecond) and the origin"""
     _AX['unit'] = case.get('unit', DAYUS)
     _AX['d0'] = datetime.datetime.fromisoformat(case['d0']) if case.get('d0') else D0
+    _AX['tz'] = case.get('tz')          # timezone-aware indices: the ticks are instants (built in UTC, shown in the zone)
 
 # ------------------------------------------------------------------ walking the JSON trees
 def leaves(tr):
@@ -116,7 +117,8 @@ def impl_setup():
     from pyg_base._pandas import df_sync, df_index, df_reindex, presync, df_columns
 
 def mkidx(days):
-    return pd.DatetimeIndex([_AX['d0'] + datetime.timedelta(microseconds=d * _AX['unit']) for d in days])
+    i = pd.DatetimeIndex([_AX['d0'] + datetime.timedelta(microseconds=d * _AX['unit']) for d in days])
+    return i.tz_localize('UTC').tz_convert(_AX['tz']) if _AX['tz'] else i
 def fl(v): return float('nan') if v is None else float('inf') if v == INF else float('-inf') if v == -INF else float(v)
 def all_int(vals): return all(v is not None and abs(v) < INF for v in vals)
 def mkscalar(tr):
@@ -164,7 +166,14 @@ def ccell(v):
 
 def cdays(index):
     out = []
+    aware = getattr(index, 'tz', None) is not None
+    if aware != bool(_AX['tz']) and len(index):
+        return ['tz-lost' if _AX['tz'] else 'tz-gained', len(index)]
+    if aware and str(index.tz) != str(mkidx([]).tz):
+        return ['tz-changed', str(index.tz)]
     for t in index:
+        if aware:
+            t = t.tz_convert('UTC').tz_localize(None)
         us = (t.to_pydatetime() - _AX['d0']) // datetime.timedelta(microseconds=1)
         out.append(us // _AX['unit'] if us % _AX['unit'] == 0 else 'us:%d' % us)
     return out
@@ -392,8 +401,71 @@ def pyleaves(o):
         return [x for sub in o.values() for x in pyleaves(sub)]
     return [o]
 
+def hexcell(v):
+    try:
+        f = float(v)
+    except Exception:
+        return repr(v)
+    return 'NaN' if f != f else f.hex()
+def snap(o):
+    """deep snapshot of caller-owned objects: structure, dtypes, index, name, every cell; other objects by identity"""
+    if isinstance(o, (list, tuple)):
+        return [type(o).__name__] + [snap(x) for x in o]
+    if isinstance(o, dict):
+        return ['dict'] + [[repr(k), snap(v)] for k, v in o.items()]
+    if isinstance(o, pd.Series):
+        return ['S', str(o.dtype), str(o.index.dtype), [str(t) for t in o.index], [hexcell(v) for v in o.values], repr(o.name)]
+    if isinstance(o, pd.DataFrame):
+        return ['F', [str(d) for d in o.dtypes], str(o.index.dtype), [str(t) for t in o.index], [repr(c) for c in o.columns],
+                [[hexcell(v) for v in row] for row in o.values]]
+    if isinstance(o, np.ndarray):
+        return ['A', str(o.dtype), list(o.shape), [hexcell(v) for v in o.ravel()]]
+    return ['O', id(o)]
+def snap_diff(a, b, path='operand'):
+    if isinstance(a, list) and isinstance(b, list) and len(a) == len(b):
+        for i, (x, y) in enumerate(zip(a, b)):
+            if x != y:
+                return snap_diff(x, y, '%s[%d]' % (path, i)) if isinstance(x, list) and isinstance(y, list) and len(x) == len(y) and len(x) > 8 or (isinstance(x, list) and x and isinstance(x[0], list)) else '%s: %s became %s' % (path, json.dumps(x)[:120], json.dumps(y)[:120])
+    return '%s: %s became %s' % (path, json.dumps(a)[:120], json.dumps(b)[:120])
+
+def expected_obs(case):
+    """what df_sync / df_reindex must return, from the statement"""
+    k = case['kind']; tr = case['tree']; lvs = leaves(tr)
+    how = case['how']
+    if k == 'reindex' and isinstance(how, dict):
+        how = dict(how, direct=True)
+    target = prescribed(lvs, how)
+    if 'L' not in tr and 'D' not in tr and k == 'sync':
+        return jcanon(tr)
+    if mixed_clash(lvs, target):
+        return ['ERR', 'ValueError']
+    C = common_columns(lvs, case.get('columns')) if k == 'sync' else None
+    return expect_tree(tr, lambda l: expect_leaf(l, target, case['method'], C))
+
+def followups(case, call, obs, reg, before, operands):
+    """the same objects are used again: operands must be untouched, the same call must give the same answer, and a
+    later alignment with another fill method must still be right"""
+    try:
+        if snap(operands) != before:
+            return 'the call changed the caller\'s own objects (values must be kept intact): ' + snap_diff(before, snap(operands))
+        again = call(case['method'], True)
+        if again != obs:
+            return 'the same call on the same objects a second time gives another result: ' + str(first_diff(obs, again))
+        for m2 in case.get('then', []):
+            got = call(m2, False)
+            exp = expected_obs(dict(case, method=m2)) if case['kind'] != 'presync' else None
+            if exp is not None and got != exp:
+                return 'after a first alignment with method=%s, aligning the same objects with method=%s: %s' % (case['method'], m2, first_diff(exp, got))
+        if snap(operands) != before:
+            return 'repeated calls changed the caller\'s own objects: ' + snap_diff(before, snap(operands))
+    except Exception as e:
+        return 'a repeated call on the same objects raised %s: %s' % (type(e).__name__, str(e)[:100])
+    return None
+
+_EXTRA = [None]
 def run_case(case):
-    """-> (status, observation)"""
+    """-> (status, observation); _EXTRA[0] = violation found by the follow-up calls on the same objects"""
+    _EXTRA[0] = None
     k = case['kind']; reg = []
     set_axis(case)
     H = lambda: spelled(case, 'how', py_how(case['how']))
@@ -421,7 +493,9 @@ def run_case(case):
             f = presync(rec, **kw)
             cols = case['columns'] if case['columns'] is not None else False
             via = case.get('via')
+            before = snap(args)
             try:
+              def invoke():
                 if sig:                  # timeseries spread over named, *args and **kwargs parameters
                     nv = case.get('nvar', len(args))
                     pos = args[:2 + nv] if sig == 'ab*kw' else args
@@ -438,6 +512,7 @@ def run_case(case):
                     f(*args, join=case['argname'], method=M(), columns=cols)
                 else:
                     f(*args, join=H(), method=M(), columns=spelled(case, 'columns', cols))
+              invoke()
             except Exception as e:
                 if not log:
                     raise
@@ -449,8 +524,15 @@ def run_case(case):
                 flat = [x for a in call for x in pyleaves(a)]
                 names = [x.name for x, m in zip(flat, multi) if m and isinstance(x, pd.Series)]
                 return colcode(names[0]) if names and known_name(names[0]) else 0
-            log.sort(key=col_of)
-            obs_calls = [[canon(x, reg) for x in call] for call in log]
+            def observe():
+                log.sort(key=col_of)
+                return [[canon(x, reg) for x in call] for call in log]
+            obs_calls = observe()
+            def again(m, same):
+                del log[:]
+                invoke()
+                return observe()
+            _EXTRA[0] = followups(dict(case, then=[]), again, obs_calls, reg, before, args)
             return 'ok', obs_calls
         obj = build(case['tree'], reg)
         if k == 'columns':
@@ -460,11 +542,14 @@ def run_case(case):
         if k == 'index':
             r = df_index(obj, H())
             return 'ok', (None if r is None else ['n', int(r)] if isinstance(r, (int, np.integer)) else ['I', cdays(r)])
-        if k == 'reindex':
-            r = df_reindex(obj, H(), method=M())
-        else:
-            r = df_sync(obj, H(), M(), spelled(case, 'columns', case['columns']))
-        return 'ok', canon(r, reg)
+        before = snap(obj)
+        def call(m, same):
+            mm = M() if same else m
+            r = df_reindex(obj, H(), method=mm) if k == 'reindex' else df_sync(obj, H(), mm, spelled(case, 'columns', case['columns']))
+            return canon(r, reg)
+        obs = call(None, True)
+        _EXTRA[0] = followups(case, call, obs, reg, before, obj)
+        return 'ok', obs
     except Exception as e:
         n = type(e).__name__
         n = n if n in ('ValueError', 'KeyError', 'TypeError', 'IndexError', 'AttributeError') else 'Other'
@@ -484,7 +569,7 @@ def impl(case):
             if d:
                 viol = 'presync did not hand the function the operands aligned on the prescribed index/columns: ' + d
             obs = [[e[0], o] for e, o in zip(exp, obs)] if len(exp) == len(obs) else ['CALLS', len(obs)]
-        return {'status': status, 'obs': obs, 'viol': viol}
+        return {'status': status, 'obs': obs, 'viol': viol or _EXTRA[0]}
     tr = case['tree']; lvs = leaves(tr)
     how = case['how']
     if k == 'reindex' and isinstance(how, dict):
@@ -505,20 +590,14 @@ def impl(case):
         elif obs != exp:
             viol = 'df_index(%s) = %s but the prescribed index is %s' % (case['how'], obs, exp)
         return {'status': status, 'obs': obs, 'viol': viol}
-    if 'L' not in tr and 'D' not in tr and k == 'sync':
-        exp = jcanon(tr)
-    elif mixed_clash(lvs, target):
-        exp = ['ERR', 'ValueError']
-    else:
-        C = common_columns(lvs, case.get('columns')) if k == 'sync' else None
-        exp = expect_tree(tr, lambda l: expect_leaf(l, target, case['method'], C))
+    exp = expected_obs(case)
     if obs != exp:
         if status != 'ok' and exp[0] != 'ERR':
             viol = '%s raised %s on a valid collection' % ('df_sync' if k == 'sync' else 'df_reindex', status)
         else:
             viol = '%s(join=%s, method=%s%s): %s' % ('df_sync' if k == 'sync' else 'df_reindex', json.dumps(case['how']), case['method'],
                                                    ', columns=%s' % case['columns'] if k == 'sync' else '', first_diff(exp, obs))
-    return {'status': status, 'obs': obs, 'viol': viol}
+    return {'status': status, 'obs': obs, 'viol': viol or _EXTRA[0]}
 
 # ------------------------------------------------------------------ classification
 def case_leaves(case):
@@ -706,6 +785,24 @@ def gen_cases(rng, tier):
             for m in METHODS:
                 cases.append({'kind': 'presync', 'args': kids, 'how': how, 'method': m, 'columns': rng.choice(['ij', 'oj', None]),
                               'default': rng.choice([None, 0]), 'sig': sig, 'nvar': nvar})
+    for _ in range(40 if q else 500):                        # dicts whose keys are called 'index' / 'values' / 'data' / 'columns' (dict(index=spx, stock=aapl))
+        n = rng.choice([2, 3, 3, 4])
+        items = [rand_ts(rng, idx, 0.2) for idx in index_family(rng, n)]
+        keys = ['index'] + rng.sample(['values', 'data', 'columns', 'a', 'b'], n - 1)
+        rng.shuffle(keys)
+        k2 = rng.randrange(1, n + 1)
+        d = {'D': [[k, x] for k, x in zip(keys[:k2], items[:k2])]}
+        rest = items[k2:]
+        shape_ = rng.choice(['top', 'inlist', 'indict'])
+        tr = d if (shape_ == 'top' and not rest) else {'L': [d] + rest} if shape_ != 'indict' else {'D': [['p', d]] + [[kk, x] for kk, x in zip('qrs', rest)]}
+        ex = rand_explicit(rng)
+        for how in POLICIES + [ex]:
+            m = rng.choice(METHODS)
+            cases.append({'kind': rng.choice(['sync', 'reindex']), 'tree': tr, 'how': how, 'method': m, 'columns': 'ij'})
+            if how != ex:
+                cases.append({'kind': 'index', 'tree': tr, 'how': how})
+        args = [d] + rest[:2]
+        cases.append({'kind': 'presync', 'args': args, 'how': rng.choice(POLICIES), 'method': rng.choice(METHODS), 'columns': rng.choice(['ij', None]), 'default': None})
     for _ in range(40 if q else 500):                        # lj / rj with >= 3 series whose last (first) index repeats another one
         k = rng.choice([3, 3, 4, 5])
         items = [rand_ts(rng, idx, 0.15) for idx in index_family(rng, k, 'ends')]
@@ -752,6 +849,7 @@ LONGCOLS = {'a': 'px_last', 'b': 'vol 2', 'c': 'Ab', 'd': 'close'}
 INTCOLS = {'a': 3, 'b': 1, 'c': 4, 'd': 2}
 LONGKEYS = {'p': 'key one', 'q': 'K2'}
 INTKEYS = {k: i + 1 for i, k in enumerate('pqrstuvw')}
+KWKEYS = {'p': 'index', 'q': 'columns', 'r': 'data', 's': 'values'}      # keys that look like constructor / indexed-dict fields
 def map_tree(tr, fc, fk):
     if 'L' in tr:
         return {'L': [map_tree(x, fc, fk) for x in tr['L']]}
@@ -778,8 +876,15 @@ def decorate(rng, case):
         if isinstance(c.get('columns'), str) and c['kind'] in ('sync', 'presync'):
             sp['columns'] = rng.choice(HOW_SPELL[c['columns'][0]])
         c['spell'] = sp
+    if rng.random() < 0.25:                      # timezone-aware indices, every member in the same zone
+        c['tz'] = rng.choice(['UTC', 'Europe/London', 'US/Eastern', 'Asia/Tokyo'])
+    if c['kind'] in ('sync', 'reindex'):         # the same objects aligned again with another fill method
+        others = [m for m in METHODS if m != c.get('method')]
+        arrays = any(is_arrj(l) for l in case_leaves(c))
+        if arrays or rng.random() < 0.5:
+            c['then'] = others if arrays else [rng.choice(others)]
     if rng.random() < 0.25:
-        fc = rng.choice([LONGCOLS, INTCOLS, {}]); fk = rng.choice([LONGKEYS, INTKEYS, {}])
+        fc = rng.choice([LONGCOLS, INTCOLS, {}]); fk = rng.choice([LONGKEYS, INTKEYS, KWKEYS, KWKEYS, {}])
         if 'tree' in c:
             c['tree'] = map_tree(c['tree'], fc, fk)
         else:
